@@ -126,6 +126,17 @@ class ModRef:
         self.mod = mod
 
 
+class Closure:
+    """a function value created by a nested def / lambda, with the environment it closes over"""
+
+    def __init__(self, func, env):
+        self.func = func   # model.Func built around the nested FunctionDef (or a synthetic one for a lambda)
+        self.env = env     # the enclosing frame's variables (by reference: late binding, as in Python)
+
+    def __repr__(self):
+        return "<closure %s>" % self.func.qualname
+
+
 class Bound:
     def __init__(self, recv, name):
         self.recv = recv
@@ -139,7 +150,7 @@ def _key(v):
         return ("SList", tuple(_key(x) for x in v.items), v.exact)
     if isinstance(v, dict):
         return ("dict", tuple(sorted((repr(_key(k)), repr(_key(x))) for k, x in v.items())))
-    if isinstance(v, (Obj, Sentinel, Emit, FuncRef, ClsRef, ModRef, Bound)):
+    if isinstance(v, (Obj, Sentinel, Emit, FuncRef, ClsRef, ModRef, Bound, Closure)):
         return ("id", id(v))
     return v
 
@@ -233,7 +244,8 @@ _BINSYM = {ast.Add: "+", ast.Sub: "-", ast.Mult: "*", ast.Div: "/", ast.FloorDiv
 class Evaluator:
     """one path of evaluation, steered by a list of branch choices"""
 
-    def __init__(self, repo, folder: Folder, inline_modules, choices, hooks=None):
+    def __init__(self, repo, folder: Folder, inline_modules, choices, hooks=None, shared=None):
+        self.shared = shared if shared is not None else {}   # module-level values computed by evaluation (factories ...)
         self.repo = repo
         self.folder = folder
         self.inline_modules = set(inline_modules)  # relpaths whose plain functions are inlined
@@ -274,12 +286,12 @@ class Evaluator:
             if v.exact or v.items:
                 return bool(v.items)
             return self.decide(Opq("truth", v))
-        if isinstance(v, (Obj, FuncRef, ClsRef, Sentinel, Emit)):
+        if isinstance(v, (Obj, FuncRef, ClsRef, Sentinel, Emit, Closure)):
             return True
         return self.decide(v)
 
     # ---- calls -----------------------------------------------------------------
-    def call_func(self, func: Func, args, kwargs=None, self_obj=None, cls_ctx=None):
+    def call_func(self, func: Func, args, kwargs=None, self_obj=None, cls_ctx=None, closure_env=None):
         kwargs = dict(kwargs or {})
         self.depth += 1
         if func not in self.trace:
@@ -291,7 +303,9 @@ class Evaluator:
             if a.kwonlyargs and any(d is None for d in a.kw_defaults):
                 raise AnalysisError("keyword-only parameters without default in %s" % func.qualname)
             names = [x.arg for x in a.posonlyargs + a.args]
-            env = {}
+            env = dict(closure_env) if closure_env else {}
+            for n in names:
+                env.pop(n, None)
             pos = list(args)
             if self_obj is not None:
                 pos = [self_obj] + pos
@@ -382,6 +396,11 @@ class Evaluator:
             self.for_(s, fr)
         elif isinstance(s, ast.Pass):
             pass
+        elif isinstance(s, ast.FunctionDef):
+            if s.decorator_list:
+                raise AnalysisError("decorated nested function %s outside the fragment" % s.name)
+            outer = fr.func.qualname if fr.func is not None else "<module>"
+            fr.env[s.name] = Closure(Func(fr.module, "%s.%s" % (outer, s.name), s, None), fr.env)
         elif isinstance(s, ast.Raise):
             raise PathRaise(s)
         elif isinstance(s, (ast.Import, ast.ImportFrom, ast.Global, ast.Nonlocal)):
@@ -504,7 +523,37 @@ class Evaluator:
         if r[0] == "module":
             return ModRef(r[1])
         v = self.folder.fold(r[2], r[1])
+        if is_unknown(v):
+            return self.module_value(name, r[1], r[2])
         return self.from_folded(v, name)
+
+    def module_value(self, name, module, expr):
+        """a module-level `name = <expression>` the constant folder cannot fold (a handler made by a factory, a table of
+        functions ...): evaluated once with this evaluator's semantics"""
+        key = (module.relpath, name)
+        if key in self.shared:
+            v = self.shared[key]
+            if v is _IN_PROGRESS:
+                raise AnalysisError("module-level value %s depends on itself" % name)
+            return v
+        self.shared[key] = _IN_PROGRESS
+        try:
+            sub = Evaluator(self.repo, self.folder, self.inline_modules, [], hooks=self.hooks, shared=self.shared)
+            sub.INS, sub.VISITOR = self.INS, self.VISITOR
+            pseudo = Func(module, "<module %s>" % module.relpath, module.tree, None)
+            try:
+                v = sub.eval(expr, Frame(module, pseudo, {}))
+            except PathRaise:
+                raise AnalysisError("module-level value %s raises" % name)
+            if sub.pos:
+                raise AnalysisError("module-level value %s depends on unknown data" % name)
+            if isinstance(v, Closure) and v.func.qualname.count(".") >= 1:
+                v = Closure(Func(v.func.module, "%s (%s)" % (name, v.func.qualname), v.func.node, None), v.env)
+        except Exception:
+            self.shared.pop(key, None)
+            raise
+        self.shared[key] = v
+        return v
 
     def from_folded(self, v, what):
         if isinstance(v, Unknown):
@@ -615,6 +664,10 @@ class Evaluator:
                 return self.call_func(func, args, kwargs)
             plain = [a.lst if isinstance(a, _StarInexact) else a for a in args]
             return Opq("call", func.qualname, *plain, *kwargs.values())
+        if isinstance(fn, Closure):
+            if star and star[0] is not args[-1]:
+                raise AnalysisError("star argument not last")
+            return self.call_func(fn.func, args, kwargs, closure_env=fn.env)
         plain = [a.lst if isinstance(a, _StarInexact) else a for a in args]
         if isinstance(fn, ClsRef):
             if star:
@@ -647,6 +700,27 @@ class Evaluator:
             if name == "list":
                 return SList([Opq("elem", v)], False)
             return Opq("tuple", v)
+        if name == "dict" and len(args) <= 1:
+            d = {}
+            if args:
+                src = args[0]
+                pairs = list(src.items()) if isinstance(src, dict) else (src.items if isinstance(src, SList) and src.exact else None)
+                if pairs is None:
+                    raise AnalysisError("dict() of an unknown sequence")
+                try:
+                    for k, v in pairs:
+                        d[k] = v
+                except (TypeError, ValueError):
+                    raise AnalysisError("dict() of a sequence that is not made of pairs")
+            d.update(kwargs)
+            return d
+        if name == "sorted" and len(args) == 1 and not kwargs and isinstance(args[0], SList) and args[0].exact:
+            try:
+                return SList(sorted(args[0].items, key=lambda x: x[0] if isinstance(x, tuple) and x and is_concrete(x[0]) else x))
+            except TypeError:
+                raise AnalysisError("sorted() of values that cannot be ordered")
+        if name == "getattr" and len(args) == 2 and isinstance(args[1], str):
+            return self.getattr_(args[0], args[1], node, fr)
         if name == "range":
             if all(isinstance(a, int) for a in args) and args:
                 return SList(list(range(*args)))
@@ -736,6 +810,12 @@ class Evaluator:
                     return base.setdefault(args[0], args[1])
                 if name == "pop" and 1 <= len(args) <= 2:
                     return base.pop(*args)
+                if name == "items" and not args:
+                    return SList(list(base.items()))
+                if name == "keys" and not args:
+                    return SList(list(base.keys()))
+                if name == "values" and not args:
+                    return SList(list(base.values()))
             except (TypeError, KeyError):
                 raise AnalysisError("dict operation not evaluable in %s" % fr.func.qualname)
             return Opq("mcall", Opq("dict"), name, *args)
@@ -869,7 +949,11 @@ class Evaluator:
         d = {}
         for k, v in zip(e.keys, e.values):
             if k is None:
-                raise AnalysisError("dict splat outside the fragment")
+                sub = self.eval(v, fr)
+                if not isinstance(sub, dict):
+                    raise AnalysisError("dict splat of an unknown mapping")
+                d.update(sub)
+                continue
             try:
                 d[self.eval(k, fr)] = self.eval(v, fr)
             except TypeError:
@@ -891,7 +975,12 @@ class Evaluator:
         return Opq("fstr", *parts)
 
     def e_Lambda(self, e, fr):
-        return Opq("lambda")
+        fd = ast.FunctionDef(name="<lambda>", args=e.args, body=[ast.Return(value=e.body)], decorator_list=[], returns=None,
+                             type_comment=None, type_params=[])
+        ast.copy_location(fd, e)
+        ast.copy_location(fd.body[0], e)
+        outer = fr.func.qualname if fr.func is not None else "<module>"
+        return Closure(Func(fr.module, "%s.<lambda>" % outer, fd, None), fr.env)
 
     def e_Subscript(self, e, fr):
         base = self.eval(e.value, fr)
@@ -934,6 +1023,15 @@ class Evaluator:
     def e_ListComp(self, e, fr):
         return self.comp(e, fr)
 
+    def e_DictComp(self, e, fr):
+        pairs = self.comp(ast.ListComp(elt=ast.Tuple(elts=[e.key, e.value], ctx=ast.Load()), generators=e.generators), fr)
+        if not pairs.exact:
+            raise AnalysisError("dict comprehension over an unknown sequence")
+        try:
+            return {k: v for k, v in pairs.items}
+        except TypeError:
+            raise AnalysisError("unhashable key in a dict comprehension")
+
     def e_GeneratorExp(self, e, fr):
         return self.comp(e, fr)
 
@@ -947,6 +1045,8 @@ class Evaluator:
             items, exact = it.items, it.exact
         elif isinstance(it, (tuple,)):
             items = list(it)
+        elif isinstance(it, dict):
+            items = list(it.keys())
         sub = Frame(fr.module, fr.func, dict(fr.env), fr.self_obj, fr.cls_ctx)
         out = []
         for x in (items if items is not None else []) + ([] if (items is not None and exact) else [Opq("elem", it)]):
@@ -964,6 +1064,9 @@ class Evaluator:
 
     def e_Starred(self, e, fr):
         raise AnalysisError("starred expression outside the fragment")
+
+
+_IN_PROGRESS = object()
 
 
 class _StarInexact:
